@@ -48,6 +48,9 @@ def check(ctx):
     vlib.build_harness(ctx)
     # (1) design: exhaustive
     vlib.model_check(ctx, FAM, "MC", "MC_3x2.cfg", workers=8)
+    # and for ANY finite set of transactions and rows: TLAPS proof of TypeOK /\ Compat /\ Agree, ReplyRight, DeniedUnchanged
+    nobl = vlib.tlaps(ctx, FAM, "LockManagerProofs")
+    ctx.cov["tlaps_obligations_proved"] = nobl
     if thorough:
         vlib.model_check(ctx, FAM, "MC", "MC_4x2.cfg", workers=16)
         vlib.model_check(ctx, FAM, "MC", "MC_3x3.cfg", workers=16)
@@ -77,6 +80,7 @@ def check(ctx):
         constants="MC: Txn={t1,t2,t3} x Rid={r1,r2}" + ("; 4x2; 3x3" if thorough else ""),
         graph_states=ctx.cov["graph_states"], graph_edges=ctx.cov["graph_edges"],
         graph_edges_walked_on_impl=ctx.cov["graph_edges_walked"],
+        tlaps="LockManagerProofs.tla: Spec => [](TypeOK /\\ Compat /\\ Agree), Spec => ReplyRight /\\ DeniedUnchanged for any finite Txn and any Rid; %d obligations proved by tlapm" % ctx.cov["tlaps_obligations_proved"],
         walk_events=dict(c), concurrent_events=dict(cc), concurrent_granted=granted, concurrent_denied=denied,
         events_validated=ctx.events),
         ["the TLA+ module LockManager is a faithful transcription of lock_manager.go's branches (bound by the walk: every edge of the state graph was performed on the real object and the projection compared)",
